@@ -64,6 +64,9 @@ def to_impl(fd):
     return Factor(d, np.array(fd['vals'], dtype=float))
 
 
+WARMUPS = [0]
+
+
 def impl_apply(fn, f, g, args):
     """run the real code; returns ('factor', attrs, shape, flatvals) | ('scalar', v) | ('raise', cls)"""
     from mbi import Domain, Factor
@@ -71,6 +74,15 @@ def impl_apply(fn, f, g, args):
     G = to_impl(g) if g is not None else None
     try:
         with np.errstate(all='ignore'):
+            # a history on the operand: the same read-only operation asked before, with the attributes in another order
+            # (results must depend on the arguments of THIS call only)
+            if args.get('warmup') is not None and fn in ('project', 'project_lse', 'sum', 'logsumexp', 'max', 'transpose'):
+                try:
+                    {'project': F.project, 'project_lse': lambda a: F.project(a, agg='logsumexp'), 'sum': F.sum, 'logsumexp': F.logsumexp,
+                     'max': F.max, 'transpose': F.transpose}[fn](args['warmup'])
+                except Exception:
+                    pass
+                WARMUPS[0] += 1
             if fn == 'expand':
                 d = Domain([a for a, _ in args['dom2']], [s for _, s in args['dom2']])
                 R = F.expand(d)
@@ -341,6 +353,9 @@ def gen_case(r):
             args['ev'] = [[a, r.randrange(s)] for a, s in evs]
         elif fn.endswith('_scalar'):
             args['c'] = r.choice([0.5, -2.0, 3.0, 0.25, 1.0, -1.0, 8.0]) if fn != 'div_scalar' else r.choice([0.5, -2.0, 4.0, 0.25, 8.0])
+        if fn in ('project', 'project_lse', 'sum', 'logsumexp', 'max', 'transpose') and len(args.get('attrs', [])) >= 2 and r.random() < 0.5:
+            w = list(args['attrs']); r.shuffle(w)
+            args['warmup'] = w
     return fn, f, g, args, k
 
 
@@ -445,7 +460,14 @@ def gen_cv_case(r):
     if fn == 'smul':
         q['c'] = r.choice([0, 1, -1, 2, 0.5, -3, math.inf])
     elif fn in ('add', 'sub', 'dot'):
-        q['b'] = gen_cv(r, dom, keys, permute=True)
+        bkeys = list(keys)
+        if r.random() < 0.5:
+            r.shuffle(bkeys)            # the same cliques registered in another order
+        if r.random() < 0.3:
+            extra = r.sample(names, r.randint(1, min(2, len(names))))
+            if extra not in bkeys:
+                bkeys.insert(r.randrange(len(bkeys) + 1), extra)     # a clique the first operand does not have
+        q['b'] = gen_cv(r, dom, bkeys, permute=True)
     elif fn == 'combine':
         other = []
         for _ in range(r.randint(0, 4)):
